@@ -884,3 +884,37 @@ reg("C08", [eng_data_random(M.mon_order, {"PUB"}, streams=True, tag="data-stream
     level_note="That posts of successive publishes enter each mailbox in publish order under concurrency (topic actor awaits "
                "all posts; FIFO mailboxes) is part of the concurrent actor model, exercised on the real server by the "
                "concurrent-publish stream.")
+
+
+# ================================================================= C14 push
+
+def eng_push(ctx):
+    cases = gen.push_cases(ctx.seed, ctx.n(160, 1500))
+    out = ctx.seq("push", cases, relevant={"ROUND", "LOOP", "REG", "STATS", "PULL", "CS", "DS", "PUB"},
+                  triggers={"ROUND"}, monitor=M.mon_push)
+    if out or not ctx.thorough:
+        return out
+    # endpoints that never answer: each such pass costs 20 s of real time (16 cases in parallel)
+    cases = gen.push_cases(ctx.seed + 1, 32, with_hang=True, prefix="ph")
+    return ctx.seq("push-hang", cases, relevant={"ROUND", "REG", "STATS", "PULL"}, triggers={"ROUND"}, monitor=M.mon_push)
+
+
+reg("C14", [eng_push, eng_control_random(None, {"CS"})],
+    rule="push: real reqwest dispatch against a scripted local HTTP endpoint; every outcome sequence up to length 3 "
+         "over {200,204,500,404,reset} first, then random longer ones over {200,201,202,204,301,400,404,500,503,reset}; "
+         "1-3 messages with attributes and binary data, 2-4 passes, a second push subscription, a pull subscription and a "
+         "refused endpoint next to it, deletion or the real loop at the end (thorough: endpoints that never answer). "
+         "non-trivial = a pass produced at least one POST",
+    monitor=M.mon_push, title="Push subscriptions deliver at least once until the endpoint accepts", design_ref="7/C14",
+    technique="Coq: effect of one push pass on each POSTed message by induction over the pass (ack / nack / left leased), "
+              "registry invariant; differential correspondence of every POST (body fields, order, retries) through the "
+              "real HTTP client",
+    level_text="Proved: the registry the loop walks holds exactly the live push subscriptions; after a pass an accepted "
+               "message is gone for good, any other answered or failed POST leaves the message queued for the next pass, a "
+               "POST without answer leaves it leased until its deadline and it is then requeued; accepted = "
+               "{102,200,201,202,204}; a pass touches only its subscription; deletion unregisters. The model is tied to "
+               "push_loop.rs by running the real dispatch code (reqwest over loopback TCP) against a scripted endpoint "
+               "and comparing every POST.",
+    level_note="Status 102 cannot be produced through a hyper-based client (interim responses are skipped), so it is "
+               "covered by the theorem only. Real clock: cases avoid instants near ack deadlines. The order in which the "
+               "real loop visits subscriptions (HashMap order) is not modelled; passes are per subscription.")
